@@ -58,7 +58,7 @@ let () =
       | "flx", [_; _] ->
         let (ops, s') = unres (flush bufs.(cur)) in
         bufs.(cur) <- s';
-        let payload = List.concat (List.map (function TPrint s -> s | _ -> []) ops) in
+        let payload = xterm_payload pen_empty ops in
         [Printf.sprintf "X{%s}" (pr_text payload)]
       | "lct", [] ->
         [Printf.sprintf "L{%s}" (String.concat "." (List.map (fun c -> Printf.sprintf "%x" (iz c)) linemask_to_char))]
